@@ -93,6 +93,15 @@ func (r *responseStorer) StoreResponse(
 	}
 
 	if refIndex < 0 || refIndex >= len(refs) {
+		// No usable position from the matcher (e.g. Vary: * never matches): reuse the reference
+		// that already describes this variant, so that the index does not grow per request.
+		refIndex = slices.IndexFunc(refs, func(ref *ResponseRef) bool {
+			return ref != nil && ref.ResponseID == responseID &&
+				maps.Equal(ref.VaryResolved, varyResolved)
+		})
+	}
+
+	if refIndex < 0 || refIndex >= len(refs) {
 		refs = append(refs, refEntry) // New response reference
 	} else {
 		refs[refIndex] = refEntry // Update existing response reference
